@@ -57,10 +57,8 @@ func c14ReopenChild(in json.RawMessage) (interface{}, error) {
 		defer close(done)
 		c14ReopenWorkload(&cs, res)
 	}()
-	select {
-	case <-done:
-	case <-time.After(60 * time.Second):
-		res.NoProgress = goroutineDump()
+	if dl := awaitWorkload(done, 60*time.Second, "checks.c14ReopenWorkload"); dl != "" {
+		return &c14ReopenResult{NoProgress: dl}, nil
 	}
 	return res, nil
 }
@@ -86,12 +84,25 @@ func c14ReopenWorkload(cs *c14ReopenCase, res *c14ReopenResult) {
 		id := fmt.Sprintf("keep%d", k)
 		batches[k].Ops = append(batches[k].Ops, model.Op{Kind: "update", ID: id, Doc: &model.Doc{ID: id, V: "keep-v", Text: map[string]string{"t": "keep"}}})
 	}
+	var persisted sync.WaitGroup
 	for _, b := range batches {
-		if err := w.Batch(b.ToBluge()); err != nil {
+		rb := b.ToBluge()
+		if cs.Unsafe {
+			// unsafe mode: a batch is on disk when its persisted call-back has run, not when Batch returns
+			persisted.Add(1)
+			var once sync.Once
+			rb.SetPersistedCallback(func(err error) {
+				if err == nil {
+					once.Do(persisted.Done)
+				}
+			})
+		}
+		if err := w.Batch(rb); err != nil {
 			res.BatchErrs = append(res.BatchErrs, "phase 1: "+err.Error())
 		}
 		cur = cur.Apply(b)
 	}
+	persisted.Wait() // (a writer that never reports them is ended by the runner's watchdog)
 	waitQuiet(w)
 	if err := w.Close(); err != nil {
 		res.BatchErrs = append(res.BatchErrs, "phase 1 close: "+err.Error())
